@@ -268,6 +268,7 @@ type server struct {
 	log    []attemptRec
 	tokens int
 	lastShape *errShape // shape of the error returned for the last scripted request (nil: a response)
+	lastCode  int       // status of the last scripted response
 }
 
 func (s *server) RoundTrip(req *http.Request) (*http.Response, error) {
@@ -321,6 +322,7 @@ func (s *server) RoundTrip(req *http.Request) (*http.Response, error) {
 	if s.lastShape != nil {
 		return nil, s.lastShape.err
 	}
+	s.lastCode = b.Code
 	resp := mk(b.Code, "")
 	if b.Code == 202 && req.Method == http.MethodPost {
 		resp.Header.Set("Location", "/v2/r/blobs/uploads/session-1") // blob upload session
@@ -352,7 +354,10 @@ type scriptObs struct {
 	panicv any
 }
 
-func classify(resp *http.Response, err error, last *errShape) string {
+// rewindHint: the class of an otherwise unknown error when the last scripted answer was a 401
+// (the only error the auth client produces by itself then is its refusal to re-send a body it
+// cannot rewind) -- keeps the classification independent of the wording of that error.
+func classify(resp *http.Response, err error, last *errShape, rewindHint string) string {
 	if err == nil {
 		if resp == nil {
 			return "NILNIL"
@@ -375,7 +380,23 @@ func classify(resp *http.Response, err error, last *errShape) string {
 	case strings.Contains(err.Error(), "failed to get request body"):
 		return "EGETBODY"
 	}
+	if rewindHint != "" {
+		return rewindHint
+	}
 	return "E?" + strings.ReplaceAll(err.Error(), " ", "_")
+}
+
+func (s *server) rewindHint(c *scriptCase) string {
+	if s.lastCode != 401 || s.lastShape != nil {
+		return ""
+	}
+	switch c.Body[0] {
+	case 'O':
+		return "ENOTREWINDABLE"
+	case 'G':
+		return "EGETBODY"
+	}
+	return ""
 }
 
 func predToken(p string) string {
@@ -514,7 +535,7 @@ func execScript(t *testing.T, c *scriptCase) scriptObs {
 				if err == nil {
 					obs.res = "RESP201"
 				} else {
-					obs.res = classify(nil, err, srv.lastShape)
+					obs.res = classify(nil, err, srv.lastShape, srv.rewindHint(c))
 				}
 				return
 			}
@@ -535,7 +556,7 @@ func execScript(t *testing.T, c *scriptCase) scriptObs {
 				if err == nil {
 					obs.res = "RESP201"
 				} else {
-					obs.res = classify(nil, err, srv.lastShape)
+					obs.res = classify(nil, err, srv.lastShape, srv.rewindHint(c))
 				}
 				return
 			}
@@ -578,7 +599,7 @@ func execScript(t *testing.T, c *scriptCase) scriptObs {
 				req.Header.Set("Authorization", "Bearer preset")
 			}
 			resp, err := client.Do(req)
-			obs.res = classify(resp, err, srv.lastShape)
+			obs.res = classify(resp, err, srv.lastShape, srv.rewindHint(c))
 			if resp != nil {
 				resp.Body.Close()
 			}
